@@ -12,8 +12,8 @@ use crate::wr::{calls_from_tree, calls_json, run_calls, WCall, WRun};
 pub static DEF: PropDef = PropDef {
     id: "C09",
     level: "exploration",
-    rule: "each case: a random conformant tree with per-element options (default / width 1-8 / unknown) is written by the real writer in several presentations and the destination byte streams are compared: (a) no Full items vs every collapsible master as Full vs a random collapse set; (b) deprecated write_unknown_size vs the option form (bytes and per-call destination lengths), and write_raw(id, data) vs write(RawTag(id, data)); (c) the output is decoded with the reference header decoder guided by the tree: every explicit width must be used exactly, unknown-size masters must carry an all-ones size, and the (id bytes, payload bytes) sequence must equal that of the all-default encoding; (d) four short-write schedules of the destination (1 byte per call, random limits, Interrupted injections) must deliver identical bytes. distinct = (tree fingerprint, collapse-set hash); non-trivial iff >=2 masters and at least one collapse or non-default option.",
-    assumptions: &["cases in which the writer rejects the tree are vacuous (counted)", "Full items are only used for masters whose descendants all use default options (Full children cannot carry options) and never together with unknown size"],
+    rule: "each case: a random conformant tree with per-element options (default / width 1-8 / unknown) is written by the real writer in several presentations and the destination byte streams are compared: (a) no Full items vs every collapsible master as Full vs a random collapse set; (a') every unknown-size master whose descendants use default options as ONE Full item with the unknown-size option vs Start(unknown), children, End; (b) deprecated write_unknown_size vs the option form (bytes and per-call destination lengths), and write_raw(id, data) vs write(RawTag(id, data)); (c) the output is decoded with the reference header decoder guided by the tree: every explicit width must be used exactly, unknown-size masters must carry an all-ones size, and the (id bytes, payload bytes) sequence must equal that of the all-default encoding; (d) four short-write schedules of the destination (1 byte per call, random limits, Interrupted injections) must deliver identical bytes. distinct = (tree fingerprint, collapse-set hash); non-trivial iff >=2 masters and at least one collapse or non-default option.",
+    assumptions: &["cases in which the writer rejects the tree are vacuous (counted)", "Full items are only used for masters whose descendants all use default options (Full children cannot carry options)"],
     cases_quick: 120_000,
     cases_thorough: 1_500_000,
     floors: &[("presentations_compared", 6000), ("distinct_nontrivial", 300), ("explicit_width_fields_checked", 500)],
@@ -88,6 +88,55 @@ fn run(c: &mut Case) {
         if run.bytes != base.bytes {
             let at = run.bytes.iter().zip(base.bytes.iter()).position(|(x, y)| x != y).unwrap_or(run.bytes.len().min(base.bytes.len()));
             c.violation("C09/full-vs-startend/bytes-differ", format!("Full presentation differs from Start/End at byte {}", at), wit(&calls, &base.bytes, &run.bytes, "a: Full vs Start/End"));
+        }
+    }
+    // (a') an unknown-size master presented as ONE Full item with the unknown-size option (quantifier: every way of
+    // collapsing x every per-element option). Reference: Start(unknown), the children, End — the baseline.
+    if u > 0 {
+        fn all_default(n: &Node) -> bool {
+            n.opt == SizeOpt::Default && n.children.iter().all(all_default)
+        }
+        fn emit(n: &Node, as_full: bool, out: &mut Vec<WCall>, used: &mut usize) {
+            if !n.is_master() {
+                out.push(WCall::Write(n.item.clone(), n.opt));
+                return;
+            }
+            if n.opt == SizeOpt::Unknown && n.children.iter().all(all_default) {
+                *used += 1;
+                if as_full {
+                    out.push(WCall::Write(n.to_full(), SizeOpt::Unknown));
+                } else {
+                    // what the unchanged writer is known to make of it: a bare Start, children ignored, nothing closed
+                    out.push(WCall::Write(crate::spec::Item::Start(n.id()), SizeOpt::Unknown));
+                }
+                return;
+            }
+            out.push(WCall::Write(crate::spec::Item::Start(n.id()), n.opt));
+            for ch in &n.children {
+                emit(ch, as_full, out, used);
+            }
+            out.push(WCall::Write(crate::spec::Item::End(n.id()), SizeOpt::Default));
+        }
+        let (mut calls, mut bare, mut used, mut used2) = (Vec::new(), Vec::new(), 0usize, 0usize);
+        for n in &doc.tree {
+            emit(n, true, &mut calls, &mut used);
+            emit(n, false, &mut bare, &mut used2);
+        }
+        if used > 0 {
+            let run = run_calls(&calls, ScriptedWrite::new());
+            c.eval();
+            c.count("presentations_compared");
+            c.count("full_with_unknown_size_presentations");
+            if run.bytes != base.bytes || !run.all_ok() {
+                let as_bare = run_calls(&bare, ScriptedWrite::new());
+                let same_as_bare_start = as_bare.bytes == run.bytes && as_bare.results.iter().map(|r| r.kind()).collect::<Vec<_>>() == run.results.iter().map(|r| r.kind()).collect::<Vec<_>>();
+                let at = run.bytes.iter().zip(base.bytes.iter()).position(|(x, y)| x != y).unwrap_or(run.bytes.len().min(base.bytes.len()));
+                c.violation(
+                    if same_as_bare_start { "C09/full-with-unknown-size/treated-as-bare-start".to_string() } else { format!("C09/full-with-unknown-size/{}", if run.all_ok() { "bytes-differ" } else { "rejected" }) },
+                    format!("a master written as one Full item with the unknown-size option does not give the bytes of Start(unknown), children, End (first difference at byte {}; {} of {} calls accepted){}", at, run.results.iter().filter(|r| r.is_ok()).count(), calls.len(), if same_as_bare_start { ": the item is handled like a bare Start — its children are dropped and the master stays open" } else { "" }),
+                    wit(&calls, &base.bytes, &run.bytes, "a': Full with unknown size vs Start/children/End"),
+                );
+            }
         }
     }
     // (b) deprecated unknown-size call
